@@ -12,7 +12,7 @@ EXPLANATION = ("Calling-convention and alignment clauses decided on the ASSEMBLE
                "a saved rbp; A3 (Win64) every xmm6-xmm15 written was spilled to a frame slot first and is reloaded from the "
                "same slot before ret; A4 caller-frame accesses are exactly the prototype's stack arguments with their widths "
                "(byte for uint8_t/bool, qword for pointers/uint64_t); A5 no std/call/syscall/indirect jump; A7 caller memory "
-               "is touched only by alignment-agnostic instructions; A9 no frame slot is stored back from the register just "
+               "is touched only by alignment-agnostic instructions; A10 every [rsp+d] frame access lies inside the `sub rsp, N` allocation (the realigning `and` only moves rsp down, so d + width <= N is necessary and sufficient for every entry alignment); A9 no frame slot is stored back from the register just "
                "loaded from it; G1asm no writable data sections; K1asm constant pools (IV, block length, lane deltas, "
                "rotation shuffles, blend masks) equal the spec and agree across flavours. Rust side: D1 no kernel runs on "
                "a CPU lacking its ISA; K3/M1 scratch sizes vs SIMD degrees; M2 FFI signatures (rule M2). "
@@ -31,11 +31,12 @@ TRUSTED = ["clang integrated assembler + llvm-objdump 14 disassembly", "engines/
            "SysV AMD64 and Microsoft x64 calling conventions as tabulated in r_asm.py", "prototype table from c/blake3_impl.h"]
 ASSUMPTIONS = ["PB summaries: round_down_to_power_of_2(x) <= x, left_subtree_len(x) <= x for x > CHUNK_LEN, chunk_state_fill_buf returns <= its length argument (itself checked)", "the assembler used by the real build produces the same instruction stream as clang's"]
 TECHNIQUE = "abstract stack/register-save dataflow over disassembled object code + constant-pool comparison"
-DESIGN_REF = "DESIGN.md section 1 (E4), section 2 (A1-A9, G1, K1, M1-M7, D1) and section 4 (C07)"
+DESIGN_REF = "DESIGN.md section 1 (E4), section 2 (A1-A10, G1, K1, M1-M7, D1) and section 4 (C07)"
 
 
 def run(ctx):
     ctx.run_rule("A", r_asm.rule_A)
+    ctx.run_rule("A10", r_asm.rule_A10)
     ctx.run_rule("G1asm", r_asm.rule_G1asm)
     ctx.run_rule("K1asm", r_asm.rule_K1asm)
     cfgs = ["asm-full", "pure-full", "portable1"] if ctx.tier == "quick" else ["asm-full", "pure-full", "intr-full", "asm-default", "portable1", "neon1"]
